@@ -169,6 +169,23 @@ Lemma rotl32_lt : forall n x, rotl32 n x < 2 ^ 32.  Proof. intros. apply m32_lt.
 Lemma add32_mod : forall a b, add32 a b = (a + b) mod 2 ^ 32.
 Proof. intros. unfold add32, m32. change 4294967295 with (N.ones 32). apply N.land_ones. Qed.
 
+(* the statements of Props/C12.v *)
+Theorem sha1_digest_shape : forall l,
+  length (sha1 l) = 20%nat /\ bytes_ok (sha1 l) = true /\ (forall x, In x (sha1 l) -> x < 256).
+Proof. intros l. split; [apply sha1_length | split; [apply sha1_bytes_ok | apply sha1_octets]]. Qed.
+
+Theorem sha1_padding : forall l,
+  (take (length l) (sha1_pad l) = l) /\ ((length (sha1_pad l) mod 64)%nat = 0%nat) /\
+  forall extra s, sha1_blocks (S (Nat.div (length (sha1_pad l)) 64) + extra) s (sha1_pad l) =
+                  sha1_blocks (S (Nat.div (length (sha1_pad l)) 64)) s (sha1_pad l).
+Proof.
+  intros l. split; [apply sha1_pad_prefix | split; [apply sha1_pad_blocks | intros extra s; apply sha1_fuel_enough]].
+Qed.
+
+Theorem sha1_words : (forall blk, length blk = 64%nat -> length (words_of blk) = 16%nat) /\
+  (forall a b, add32 a b = (a + b) mod 2 ^ 32) /\ (forall n x, rotl32 n x < 2 ^ 32).
+Proof. split; [intros blk L; apply words_of_length; exact L | split; [exact add32_mod | exact rotl32_lt]]. Qed.
+
 (* ---- test vectors (FIPS 180-2 appendix A / NIST CAVS): non-vacuity, not theorems ---- *)
 Example sha1_vec_abc : hex_of false (sha1 (bs "abc")) = bs "a9993e364706816aba3e25717850c26c9cd0d89d".
 Proof. vm_compute. reflexivity. Qed.
